@@ -17,8 +17,8 @@ class RequestStreamRequester(StreamHandler, DefaultPublisherSubscription, Reques
         pass
 
     def subscribe(self, subscriber: Subscriber):
+        self._send_stream_request(self.payload)  # before on_subscribe: nothing may precede the request frame
         super().subscribe(subscriber)
-        self._send_stream_request(self.payload)
 
     def cancel(self):
         self.send_cancel()
